@@ -231,7 +231,7 @@ example : ∃ P J, applyMatcher (stage2Args exArgsSmall exCSmall 3) (some exT) e
     ex_names_small _ exCSmall ex_first_small (by decide) exSimFn 3 8
   obtain ⟨J, hJ, row, hrow, hk, -⟩ := C01.setsim_complete_wide .jaccard (Or.inl rfl) exArgsSmall exT exToks 4 exL exR
     ex_valid_small (thrSmall .jaccard) exScope exLs exLs_mem exRs exRs_mem exLs_present exRs_present exPair_nonempty
-    exPair_qual_small
+    exPair_qual_small (by decide +kernel)
   have hkeys : (keyOf exL exArgs.lKey exLs, keyOf exR exArgs.rKey exRs) = (Cell.int 1, Cell.int 7) := by decide +kernel
   have hJin : InResult J (keyOf exL exArgs.lKey exLs) (keyOf exR exArgs.rKey exRs) := ⟨row, hrow, hk⟩
   have hiff := (pipeline_iff_wide .jaccard exArgsSmall exT exToks exL exR (Or.inl rfl) ex_valid_small ex_names_small
@@ -251,7 +251,7 @@ example : ∃ P J, applyMatcher (stage2Args exArgsInt exCInt 3) (some exT) exTok
     ex_names_int _ exCInt ex_first_int (by decide) exSimFn 3 8
   obtain ⟨J, hJ, row, hrow, hk, -⟩ := C01.setsim_complete_wide .jaccard (Or.inl rfl) exArgsInt exT exToks1 4 exL exR
     ex_valid_int .intOne exScope1 exLs exLs_mem exRs exRs_mem exLs_present exRs_present exPair_nonempty1
-    exPair_qual_int
+    exPair_qual_int (by decide +kernel)
   have hkeys : (keyOf exL exArgs.lKey exLs, keyOf exR exArgs.rKey exRs) = (Cell.int 1, Cell.int 7) := by decide +kernel
   have hJin : InResult J (keyOf exL exArgs.lKey exLs) (keyOf exR exArgs.rKey exRs) := ⟨row, hrow, hk⟩
   have hiff := (pipeline_iff_wide .jaccard exArgsInt exT exToks1 exL exR (Or.inl rfl) ex_valid_int ex_names_int
